@@ -21,6 +21,8 @@ use std::time::{Duration, Instant};
 
 #[derive(Clone, Copy, PartialEq, Eq, Debug)]
 enum TS {
+  /// free slot for a thread the library spawns itself (see `Controller::adopt`)
+  Spare,
   New,
   Ready,
   Running,
@@ -67,6 +69,8 @@ struct St {
   spurious: f64,
   max_steps: u64,
   step_limit_hit: bool,
+  /// threads announced by `expect_adoption` that have not called `adopt` yet
+  expected: usize,
   last_step_at: Instant,
   trace: Option<Vec<String>>,
 }
@@ -91,10 +95,15 @@ pub struct Outcome {
 
 impl Ctl {
   pub fn new(n: usize, seed: u64, strat: Strategy) -> Arc<Ctl> {
+    Self::with_spares(n, 0, seed, strat)
+  }
+
+  /// `n` threads spawned through `spawn`, plus `spares` slots for adopted threads.
+  pub fn with_spares(n: usize, spares: usize, seed: u64, strat: Strategy) -> Arc<Ctl> {
     let mut rng = StdRng::seed_from_u64(seed);
     let mut th = Vec::new();
-    for _ in 0..n {
-      th.push(Th { st: TS::New, token: false, handle: None, prio: rng.random_range(1000..2000), spin_seen: 0, panicked: None });
+    for i in 0..n + spares {
+      th.push(Th { st: if i < n { TS::New } else { TS::Spare }, token: false, handle: None, prio: rng.random_range(1000..2000), spin_seen: 0, panicked: None });
     }
     let mut cps = vec![];
     if let Strategy::Pct { d, k } = &strat {
@@ -121,6 +130,7 @@ impl Ctl {
         spurious: 0.0,
         max_steps: 400_000,
         step_limit_hit: false,
+        expected: 0,
         last_step_at: Instant::now(),
         trace: None,
       }),
@@ -332,13 +342,13 @@ impl Ctl {
     self.hand_over(&mut s, None);
     let mut stuck = false;
     loop {
-      let all_done = s.th.iter().all(|t| t.st == TS::Done);
+      let all_done = s.th.iter().all(|t| t.st == TS::Done || t.st == TS::Spare);
       if all_done || s.free_run {
         break;
       }
-      if s.quiescent && s.cur.is_none() && s.awaiting.is_none() {
+      if s.quiescent && s.cur.is_none() && s.awaiting.is_none() && s.expected == 0 {
         // grace period: a thread woken through an unhooked unpark shows up by itself
-        let deadline = Instant::now() + Duration::from_millis(25);
+        let deadline = Instant::now() + Duration::from_millis(60);
         let mut revived = false;
         while Instant::now() < deadline {
           s = self.cv.wait_timeout(s, Duration::from_millis(5)).unwrap().0;
@@ -355,6 +365,12 @@ impl Ctl {
         break;
       }
       s = self.cv.wait_timeout(s, Duration::from_millis(20)).unwrap().0;
+      if !s.free_run && s.cur.is_none() && s.awaiting.is_none() && !self.candidates(&s).is_empty() {
+        // somebody became runnable while nobody held the baton (an adopted thread arrived,
+        // a parked thread was woken through an unhooked unpark)
+        self.hand_over(&mut s, None);
+        continue;
+      }
       if s.last_step_at.elapsed() > Duration::from_secs(4) && (s.cur.is_some() || s.awaiting.is_some()) {
         // a timed park being awaited is fine for a while; otherwise somebody blocks in the OS
         stuck = true;
@@ -368,7 +384,7 @@ impl Ctl {
     let blocked: Vec<usize> = s.th.iter().enumerate().filter(|(_, t)| matches!(t.st, TS::Parked | TS::ParkedTimed)).map(|(i, _)| i).collect();
     Outcome {
       blocked,
-      all_done: s.th.iter().all(|t| t.st == TS::Done),
+      all_done: s.th.iter().all(|t| t.st == TS::Done || t.st == TS::Spare),
       step_limit: s.step_limit_hit,
       stuck,
       steps: s.steps,
@@ -508,6 +524,48 @@ impl Controller for Ctl {
       if let Some(tr) = s.trace.as_mut() {
         tr.push(format!("unpark t{}", t));
       }
+    }
+  }
+
+  fn adopt(&self) -> bool {
+    let tid = {
+      let mut s = self.m.lock().unwrap();
+      if s.free_run {
+        return false;
+      }
+      let slot = match s.th.iter().position(|t| t.st == TS::Spare) {
+        Some(i) => i,
+        None => return false,
+      };
+      s.ids.insert(std::thread::current().id(), slot);
+      s.th[slot].handle = Some(std::thread::current());
+      s.th[slot].st = TS::Ready;
+      s.expected = s.expected.saturating_sub(1);
+      s.progress += 1;
+      self.cv.notify_all();
+      slot
+    };
+    self.wait_turn(tid);
+    true
+  }
+
+  fn expect_adoption(&self) {
+    let mut s = self.m.lock().unwrap();
+    if !s.free_run {
+      s.expected += 1;
+    }
+  }
+
+  fn retire(&self) {
+    let mut s = self.m.lock().unwrap();
+    if let Some(tid) = self.tid(&s) {
+      s.th[tid].st = TS::Done;
+      s.progress += 1;
+      if s.cur == Some(tid) {
+        s.cur = None;
+        self.hand_over(&mut s, None);
+      }
+      self.cv.notify_all();
     }
   }
 
